@@ -175,6 +175,8 @@ def main(tier):
     from ..canary import effect_canary
     effect_canary(run)
     F = census_crate(run, doc, "default")
+    from ..premises import trait_impls
+    trait_impls(run, F, "C16")
     run.floor("entry points", len(F.evaluators_present()), 5)
     run.floor("reachable functions", len(F.reach()), 100)
     configs = 1
